@@ -33,7 +33,7 @@ def values(cfg, lang, rng):
     dec = cfg["dec"]
     n = lambda a, b="": a + (dec + b if b else "")
     vals = []
-    for t in (n("0", "5"), n("1234", "5678"), "-" + n("7", "25"), "1000000", n("0", "004"), "12", n("999", "995"), "0", n("1234567", "891"), "-" + n("1000000000", "5"), "-" + n("0", "2747"), "-" + n("0", "0004")):
+    for t in (n("0", "5"), n("1234", "5678"), "-" + n("7", "25"), "1000000", n("0", "004"), "12", n("999", "995"), "0", n("1234567", "891"), "-" + n("1000000000", "5"), "-" + n("0", "2747"), "-" + n("0", "0004"), "-" + n("0", "5"), "-" + n("0", "005"), "-" + n("0", "0005")):
         vals.append(("num", t))
     for t in (n("5", "5") + "%", "-12%", "150%", "%" + n("7", "25"), n("1000000", "5") + "%", "%" + n("1234567", "25"), "1000000000%", "-" + n("2500000", "75") + "%"):
         vals.append(("pct", t))
